@@ -31,6 +31,17 @@ def untraced():
     return _Null()
 
 
+def plain(v):
+    """A store value as plain JSON data (Redis-backed stores hand out views; an empty view is an absent key)."""
+    if v is None:
+        return None
+    if hasattr(v, "to_dict"):
+        return v.to_dict() or None
+    if hasattr(v, "to_list"):
+        return v.to_list() or None
+    return v
+
+
 class Monitors:
     def __init__(self, inst, which, sm_types=None):
         from vf.api import tolerated_signatures
@@ -82,7 +93,7 @@ class Monitors:
                     self.fail("C02 first notification of %s is %s" % (arn, sts[0]))
                 if len(sts) > 2 or (len(sts) == 2 and sts[1] not in TERMINAL):
                     self.fail("C02 notification sequence %s for %s" % (sts, arn))
-            rec = eng.executions.get(arn)
+            rec = plain(eng.executions.get(arn))
             term = len(sts) >= 2
             if rec is not None and "C02" in self.which:
                 st = rec["status"]
@@ -125,7 +136,7 @@ class Monitors:
                 elif self.sm_types.get(d["stateMachineArn"], "STANDARD") == "STANDARD" and inst.alive:
                     self.fail("C11 STANDARD execution %s has a notification but no record" % arn)
             # ---- C09 / C11: history ---------------------------------------------
-            hist = eng.execution_history.get(arn)
+            hist = plain(eng.execution_history.get(arn))
             if hist is not None and ("C09" in self.which or "C11" in self.which):
                 self.check_history(arn, list(hist), rec, sts, term)
             if self.sm_types.get(per[arn][0][1]["detail"]["stateMachineArn"], "STANDARD") == "EXPRESS":
@@ -279,7 +290,7 @@ def result_of(arn=None):
 
 def run_scenario(asl, data, picks, workers, which, sm_type="STANDARD", expect=None, max_steps=80, children=(),
                  timer_horizon=None, eager_timer=None, ttl=500, n_exec=1, pre_run=None, canonical=True,
-                 extra_check=None, start_ctx=None, expect_each=None, fast=False):
+                 extra_check=None, start_ctx=None, expect_each=None, fast=False, store="simple", on_step_extra=None):
     """Run one execution of `asl` to quiescence under the schedule `picks`.
     Returns "" or the first monitor/oracle violation.
     fast=True: every engine action (delivery, reply, timer) runs outside CrossHair's tracer. Only legal when no
@@ -289,7 +300,7 @@ def run_scenario(asl, data, picks, workers, which, sm_type="STANDARD", expect=No
     U = untraced if fast else _Null
     with U():
         sim.reset()
-        dur = sim.Durable()
+        dur = sim.Durable(store)
         arn = dur.add_machine(asl, sm_type)
         types = {arn: sm_type}
         for name, casl, ctype in children:
@@ -297,8 +308,14 @@ def run_scenario(asl, data, picks, workers, which, sm_type="STANDARD", expect=No
         inst = sim.Instance(dur, ttl=ttl)
         inst.alive = True
         mon = Monitors(inst, which, types)
-        run = sim.Run(picks, workers, max_steps=max_steps, eager_timer=eager_timer,
-                      on_step=lambda r: mon.after_step(r), fast=fast)
+        def _on_step(r):
+            mon.after_step(r)
+            if on_step_extra is not None and not mon.err:
+                with untraced():
+                    e = on_step_extra(r, inst, mon)
+                if e:
+                    mon.fail(e)
+        run = sim.Run(picks, workers, max_steps=max_steps, eager_timer=eager_timer, on_step=_on_step, fast=fast)
         run.instances = [inst]
         for i in range(n_exec):
             ev = sim.start_event(copy.deepcopy(data), arn)
